@@ -79,3 +79,45 @@ Definition expr_result_ok (P : prog) (en : env) (t : ty) (m : tmap * tmap) (o : 
   | Exn e => type_failure e = false
   | NoFuel => True
   end.
+
+(* ---- program-level hypotheses of stages 2/3 (all follow from check_prog_certified: Proofs5) *)
+Definition methods_compat (P : prog) : Prop :=
+  forall d c m o md, subclass P d c = true -> (exists cd, class_of P d = Some cd) ->
+    method_of P c m = Some (o, md) ->
+    exists o' md', method_of P d m = Some (o', md') /\ subclass P d o' = true /\
+      (exists cd', class_of P o' = Some cd' /\ lookup (c_methods cd') m = Some md') /\
+      (md' = md \/ sig_compat P md' md = true).
+
+Definition params_of (self : option id) (fd : fdecl) : decls :=
+  match self with Some c => (self_id, TInst c) :: f_params fd | None => f_params fd end.
+
+Definition bodies_ok (P : prog) : Prop :=
+  (forall g fd, lookup (p_funcs P) g = Some fd -> check_fun P true None fd = Ok tt) /\
+  (forall o cd m md, class_of P o = Some cd -> lookup (c_methods cd) m = Some md ->
+     check_fun P true (Some o) md = Ok tt).
+
+Definition prog_ok (P : prog) : Prop := class_table_ok P /\ methods_compat P /\ bodies_ok P.
+
+Definition call_ok (P : prog) (ret : ty) (o : out value) : Prop :=
+  match o with Val v => mem P v ret | Exn e => type_failure e = false | NoFuel => True end.
+
+(* running an accepted body from an environment that satisfies its parameter types *)
+Definition body_ok_at (P : prog) (f : nat) : Prop :=
+  forall self fd en, check_fun P true self fd = Ok tt -> env_decl_ok P en (params_of self fd) ->
+    call_ok P (f_ret fd) (finish_call (exec P f en (f_body fd))).
+
+Definition expr_ok_at (P : prog) (f : nat) : Prop :=
+  forall e d fr t m en, infer P true d fr e = Ok (t, m) ->
+    env_decl_ok P en d -> env_frame_ok P en fr -> expr_result_ok P en t m (eval P f en e).
+
+Definition stmt_result_ok (P : prog) (ret : ty) (st' : cst) (o : out sres) : Prop :=
+  match o with
+  | Val (Normal en') => env_ok P en' st'
+  | Val (Returned v) => mem P v ret
+  | Exn e => type_failure e = false
+  | NoFuel => True
+  end.
+
+Definition stmt_ok_at (P : prog) (f : nat) : Prop :=
+  forall s ret st st' en, check_stmt P true ret st s = Ok st' -> env_ok P en st ->
+    stmt_result_ok P ret st' (exec P f en s).
